@@ -150,6 +150,47 @@ class StateEffects:
                     src = fi.module.constants[src.id]
         if isinstance(src, ast.Call) and dotted(src.func) in ("frozenset", "set", "list", "tuple") and len(src.args) == 1:
             src = src.args[0]
+        # a constant slice of another module-level table: TABLE[:4], TABLE[2:]
+        for _hop in range(3):
+            if isinstance(src, ast.Subscript) and isinstance(src.slice, ast.Slice) and isinstance(src.value, ast.Name):
+                base = None
+                r = self.prog.resolve_name(fi.module, src.value.id)
+                if isinstance(r, tuple) and r[0] == "const":
+                    base = r[1].constants[r[2]]
+                elif src.value.id in fi.module.constants:
+                    base = fi.module.constants[src.value.id]
+                sl = src.slice
+                bounds = []
+                okb = True
+                for b in (sl.lower, sl.upper, sl.step):
+                    if b is None:
+                        bounds.append(None)
+                    elif isinstance(b, ast.Constant) and isinstance(b.value, int):
+                        bounds.append(b.value)
+                    elif isinstance(b, ast.UnaryOp) and isinstance(b.op, ast.USub) and isinstance(b.operand, ast.Constant) and isinstance(b.operand.value, int):
+                        bounds.append(-b.operand.value)
+                    else:
+                        okb = False
+                if base is not None and okb and isinstance(base, (ast.Tuple, ast.List)):
+                    src = type(base)(elts=base.elts[slice(*bounds)], ctx=ast.Load())
+                else:
+                    break
+            elif isinstance(src, ast.Name):
+                r = self.prog.resolve_name(fi.module, src.id)
+                if isinstance(r, tuple) and r[0] == "const":
+                    src = r[1].constants[r[2]]
+                elif src.id in fi.module.constants:
+                    src = fi.module.constants[src.id]
+                else:
+                    break
+            else:
+                break
+        # a table of (key, value) pairs unpacked by the loop target
+        if isinstance(src, (ast.List, ast.Tuple)) and src.elts and all(isinstance(e, (ast.Tuple, ast.List)) and len(e.elts) == 2 and isinstance(e.elts[0], ast.Constant)
+                                                                     and isinstance(e.elts[0].value, str) for e in src.elts):
+            if d.path == (0,):
+                return {e.elts[0].value: e.elts[1] for e in src.elts}
+            return None
         if isinstance(src, ast.Dict):
             if want_items and d.path != (0,):
                 return None
